@@ -205,6 +205,13 @@ class ExternalVariableCollector(NodeVisitor):
         self.funcnames.add(node.name)
         self.generic_visit(node)
 
+    def visit_ClassDef(self, node):
+        self.provenance[node.name] = "body"
+        self.assigned.add(node.name)
+        # The body of the class is a separate scope
+        for expr in [*node.decorator_list, *node.bases, *node.keywords]:
+            self.visit(expr)
+
     def visit_Name(self, node):
         if isinstance(node.ctx, ast.Load):
             self.used.add(node.id)
@@ -638,6 +645,12 @@ class PteraTransformer(NodeTransformer):
             ),
             node,
         )
+
+    def visit_ClassDef(self, node):
+        # The body of the class is a separate scope: its assignments are not
+        # variables of the function (and names like __ptera_frame would be
+        # mangled inside of it)
+        return node
 
     def visit_For(self, node):
         new_body = self.generate_interactions(node.target)
